@@ -257,7 +257,42 @@ func (w *World) baseClassFrom(v ssa.Value, seen map[ssa.Value]bool, loaded bool)
 				return w.finishClass(sawModel, sawGen, "other")
 			}
 			return worst, wvia
-		case *ssa.Parameter, *ssa.FreeVar:
+		case *ssa.FreeVar:
+			// a variable of the enclosing function that the closure captured: the free variable *is* what the enclosing function bound it
+			// to where it made the closure (the address of its local, or the value it captured) - judged there
+			var bound []ssa.Value
+			if c := x.Parent(); c != nil && c.Parent() != nil {
+				for j, fv := range c.FreeVars {
+					if fv != x {
+						continue
+					}
+					forEachInstr(c.Parent(), func(_ *ssa.BasicBlock, ins ssa.Instruction) {
+						if mc, ok := ins.(*ssa.MakeClosure); ok && mc.Fn == ssa.Value(c) && j < len(mc.Bindings) {
+							bound = append(bound, mc.Bindings[j])
+						}
+					})
+				}
+			}
+			if len(bound) == 0 {
+				return w.finishClass(sawModel, sawGen, "other")
+			}
+			if len(bound) == 1 && !seen[bound[0]] {
+				seen[bound[0]] = true
+				v = bound[0]
+				continue
+			}
+			worst, wvia := "fresh", "captured"
+			for _, bv := range bound {
+				c, via := w.baseClassFrom(bv, seen, loaded)
+				if classRank(c) > classRank(worst) {
+					worst, wvia = c, via
+				}
+			}
+			if worst == "other" {
+				return w.finishClass(sawModel, sawGen, "other")
+			}
+			return worst, wvia
+		case *ssa.Parameter:
 			return w.finishClass(sawModel, sawGen, "other")
 		case *ssa.Call:
 			// results of calls: constructors of fresh things are not tracked; model-typed results are shared
